@@ -155,6 +155,8 @@ def run(R):
     r10(R)
     r11(R)
     r12(R)
+    import c01
+    c01.seen_scope(R, "C02-R13")
 
 
 def r1(R):
